@@ -27,7 +27,7 @@ REQUIRED_FINAL = ["Sqfs.C15.ostream_flush_terminates", "Sqfs.C15.ostream_transpa
             "Sqfs.C15.process_data_meets_contract_dec", "Sqfs.C15.toy_meets_contract"]
 CODECS = ["gzip", "xz", "bzip2", "zstd"]
 MAGIC_LEN = {"gzip": 3, "xz": 6, "zstd": 4, "bzip2": 3}
-TOOL_TIMEOUT = 8          # seconds; normal runs take well under one
+JOBS = int(os.environ.get("VERIF_JOBS", "3"))       # parallel tool runs (the machine may be shared)
 
 
 def tok(b):
@@ -86,29 +86,37 @@ def build_fake_harness(ctx, bufsz, real):
     return ctx.cc("h_c15_%d%s" % (bufsz, "r" if real else ""), ["h_c15.c"] + srcs, flags=["-DH_BUFSZ=%d" % bufsz])
 
 
-def run_lines(ctx, exe, lines, timeout=300):
-    """run a line-protocol harness; a hang or abort on one line is a result for that line, the rest is re-run.
+def run_lines(ctx, exe, lines, timeout=900):
+    """run a line-protocol harness; a hang or abort on one line is a result for that line (confirmed by running that
+    line alone with a long timeout, so that a loaded machine is not mistaken for a hang), the rest is re-run.
     returns list of outputs ('HANG' / 'ABORT rc ...' for the offending lines)"""
+    def once(ls, to):
+        text = "\n".join(ls) + "\n"
+        try:
+            r = subprocess.run([str(exe)], input=text, capture_output=True, text=True, env=ctx.san_env(), timeout=to)
+            return r.stdout.splitlines(), r.returncode, r.stderr
+        except subprocess.TimeoutExpired as e:
+            o = e.stdout or ""
+            if isinstance(o, (bytes, bytearray)):
+                o = o.decode(errors="replace")
+            return o.splitlines(), "timeout", ""
     out = []
     start = 0
     while start < len(lines):
-        text = "\n".join(lines[start:]) + "\n"
-        try:
-            r = subprocess.run([str(exe)], input=text, capture_output=True, text=True, env=ctx.san_env(), timeout=timeout)
-            got = r.stdout.splitlines()
-            rc, err = r.returncode, r.stderr
-        except subprocess.TimeoutExpired as e:
-            got = (e.stdout or b"").decode(errors="replace").splitlines() if isinstance(e.stdout, (bytes, bytearray)) else (e.stdout or "").splitlines()
-            rc, err = "timeout", ""
+        got, rc, err = once(lines[start:], timeout)
         want = len(lines) - start
         if rc == 0 and len(got) == want:
             out += got
             break
         k = min(len(got), want - 1)
         out += got[:k]
-        out.append("HANG" if rc == "timeout" else "ABORT rc=%s %s" % (rc, err.strip().splitlines()[0][:200] if err.strip() else ""))
+        g1, rc1, err1 = once([lines[start + k]], 180)
+        if rc1 == 0 and len(g1) == 1:
+            out.append(g1[0])
+        else:
+            e = (err1 or err).strip().splitlines()
+            out.append("HANG" if rc1 == "timeout" else "ABORT rc=%s %s" % (rc1, e[0][:200] if e else ""))
         start += k + 1
-        timeout = min(timeout, 20)
     return out
 
 
@@ -369,20 +377,39 @@ class Tools:
         self.zref = ctx.cc("c15_zstd_ref", ["c15_zstd_ref.c"], libs=["-lzstd"])
         self.env = ctx.san_env()
         self.n = 0
+        # "does not terminate" is decided on CPU time (ulimit -t), which does not grow when the machine is loaded: the
+        # defects in question spin.  The wall-clock timeouts are only a fallback for a blocking hang and are confirmed
+        # by an isolated, much longer re-run.
+        self.cpu = 6            # CPU seconds; legitimate runs need < 1 (calibrate() raises it on a slow machine)
+        self.t1 = 300.0
+        self.t2 = 900.0
         self.d = ctx.scratch / "tools"
         self.d.mkdir(exist_ok=True)
 
-    def pack(self, data, tag):
+    def calibrate(self, cpu_seconds):
+        """`cpu_seconds` = CPU time of the most expensive plain run"""
+        self.cpu = int(max(6, 20 * cpu_seconds + 1))
+
+    def limited(self, cmd):
+        return ["sh", "-c", "ulimit -t %d; exec \"$@\"" % self.cpu, "sh"] + cmd
+
+    @staticmethod
+    def cpu_killed(rc):
+        return rc in (-24, -9, 128 + 24, 128 + 9)
+
+    def pack(self, data, tag, timeout=None):
         """tar2sqfs on `data` → ('ok', sha256) | ('fail', rc) | ('hang',) | ('abort', rc, msg)"""
         self.n += 1
         out = self.d / ("img_%s_%d_%d.sqfs" % (tag, os.getpid(), id(data) % 100000 + self.n))
         try:
-            r = subprocess.run([str(self.t2s), "-q", "-f", str(out)], input=data, capture_output=True, env=self.env, timeout=TOOL_TIMEOUT)
+            r = subprocess.run(self.limited([str(self.t2s), "-q", "-f", str(out)]), input=data, capture_output=True, env=self.env, timeout=timeout or self.t1)
         except subprocess.TimeoutExpired:
             if out.exists():
                 out.unlink()
-            return ("hang",)
+            return ("hang", "wall")
         try:
+            if self.cpu_killed(r.returncode):
+                return ("hang", "cpu")
             if r.returncode >= 90 or r.returncode < 0:
                 return ("abort", r.returncode, r.stderr.decode(errors="replace")[-400:])
             if r.returncode != 0:
@@ -399,12 +426,14 @@ class Tools:
             raise vlib.CheckFailure("tar2sqfs failed on a plain generated archive: %s" % r.stderr.decode(errors="replace")[-300:])
         return out
 
-    def unpack(self, img, codec=None):
+    def unpack(self, img, codec=None, timeout=None):
         cmd = [str(self.s2t)] + (["-c", codec] if codec else []) + [str(img)]
         try:
-            r = subprocess.run(cmd, capture_output=True, env=self.env, timeout=TOOL_TIMEOUT)
+            r = subprocess.run(self.limited(cmd), capture_output=True, env=self.env, timeout=timeout or self.t1)
         except subprocess.TimeoutExpired as e:
-            return ("hang", len(e.stdout or b""))
+            return ("hang", len(e.stdout or b""), "wall")
+        if self.cpu_killed(r.returncode):
+            return ("hang", len(r.stdout or b""), "cpu")
         if r.returncode >= 90 or r.returncode < 0:
             return ("abort", r.returncode, r.stderr.decode(errors="replace")[-400:])
         if r.returncode != 0:
@@ -485,11 +514,20 @@ def tool_part(ctx, bufsz):
         body = rng.randbytes(n) if rnd else (b"squashfs" * (n // 8 + 1))[:n]
         archives.append(("edge%dx%+d%s" % (k, delta, "r" if rnd else "c"), mk_tar([("f", body)])))
     plain = {}
+    slowest = 0.0
+    import resource
     for tag, tar in archives:
-        res = T.pack(tar, "plain")
+        u0 = resource.getrusage(resource.RUSAGE_CHILDREN)
+        res = T.pack(tar, "plain", timeout=900)
+        u1 = resource.getrusage(resource.RUSAGE_CHILDREN)
+        slowest = max(slowest, (u1.ru_utime + u1.ru_stime) - (u0.ru_utime + u0.ru_stime))
         if res[0] != "ok":
             raise vlib.CheckFailure("tar2sqfs does not pack the plain archive %s: %s" % (tag, res))
         plain[tag] = res[1]
+    T.calibrate(slowest)
+    results["limits"] = {"cpu_s_of_costliest_plain_run": round(slowest, 3), "cpu_limit_s": T.cpu, "wall_first_pass_s": T.t1,
+                         "wall_isolated_rerun_s": T.t2}
+    confirmed_hangs = set()
 
     def add(cls, codec, tag, desc, data, oracle):
         jobs.append((cls, codec, tag, desc, data, oracle))
@@ -534,9 +572,18 @@ def tool_part(ctx, bufsz):
             ref = ("rejects",) if exp is None else T.pack(exp, "ref")
         return res, ref
 
-    with ThreadPoolExecutor(max_workers=6) as ex:
+    with ThreadPoolExecutor(max_workers=JOBS) as ex:
         outs = list(ex.map(run_job, jobs))
     results["tar2sqfs_runs"] = len(jobs) + len(archives)
+    # a first-pass timeout is only a suspicion: run the case alone with a much longer timeout (once per kind of hang)
+    for idx, ((cls, codec, tag, desc, data, oracle), (res, ref)) in enumerate(zip(jobs, outs)):
+        hk = "gzip-data" if (codec == "gzip" and cls in ("flipped", "padding", "garbage")) else (codec, cls)
+        if res[0] == "hang" and res[1] == "wall" and hk not in confirmed_hangs:
+            res2 = T.pack(data, codec, timeout=T.t2)
+            if res2[0] == "hang":
+                confirmed_hangs.add(hk)
+            outs[idx] = (res2, ref)
+            results["isolated_reruns"] = results.get("isolated_reruns", 0) + 1
     for (cls, codec, tag, desc, data, oracle), (res, ref) in zip(jobs, outs):
         results["by_class"][cls] = results["by_class"].get(cls, 0) + 1
         results["outcomes"]["%s:%s" % (cls, res[0] if res[0] != "ok" else ("same" if res[1] == plain[tag] else "other-image"))] = \
@@ -548,7 +595,7 @@ def tool_part(ctx, bufsz):
             if cls in ("flipped", "padding", "garbage") and codec == "gzip":
                 key, what = "gzip:data-error-hang", "tar2sqfs never terminates on a corrupted gzip stream (%s): inflate's Z_DATA_ERROR is not treated as an error" % desc
             else:
-                key, what = "tar2sqfs-hang:%s:%s" % (codec, cls), "tar2sqfs does not terminate within %ds on %s input (%s)" % (TOOL_TIMEOUT, codec, desc)
+                key, what = "tar2sqfs-hang:%s:%s" % (codec, cls), "tar2sqfs does not terminate (%s limit: %d CPU seconds / %d s) on %s input (%s)" % (res[1], T.cpu, T.t2, codec, desc)
         elif res[0] == "abort":
             key, what = "tar2sqfs-abort:%s:%s" % (codec, cls), "tar2sqfs aborted (rc=%s) on %s input (%s): %s" % (res[1], codec, desc, res[2][-200:])
         elif oracle == "same" and not same:
@@ -576,7 +623,7 @@ def tool_part(ctx, bufsz):
     ujobs = []
     for tag, tar in archives:
         img = T.image(tar, tag)
-        base = T.unpack(img)
+        base = T.unpack(img, timeout=600)
         if base[0] != "ok":
             raise vlib.CheckFailure("sqfs2tar failed on %s: %s" % (tag, base[:2]))
         for codec in CODECS:
@@ -588,8 +635,15 @@ def tool_part(ctx, bufsz):
         exp = ref_decompress_all(T, codec, res[1]) if res[0] == "ok" else None
         return res, exp
 
-    with ThreadPoolExecutor(max_workers=6) as ex:
+    with ThreadPoolExecutor(max_workers=JOBS) as ex:
         uouts = list(ex.map(run_u, ujobs))
+    for idx, ((tag, codec, img, base), (res, exp)) in enumerate(zip(ujobs, uouts)):
+        if res[0] == "hang" and res[2] == "wall" and ("sqfs2tar", codec) not in confirmed_hangs:
+            res2 = T.unpack(img, codec, timeout=T.t2)
+            if res2[0] == "hang":
+                confirmed_hangs.add(("sqfs2tar", codec))
+            uouts[idx] = (res2, ref_decompress_all(T, codec, res2[1]) if res2[0] == "ok" else None)
+            results["isolated_reruns"] = results.get("isolated_reruns", 0) + 1
     results["sqfs2tar_runs"] = len(ujobs) + len(archives)
     for (tag, codec, img, base), (res, exp) in zip(ujobs, uouts):
         key = what = None
@@ -647,7 +701,7 @@ def replay(ctx, path):
         bufsz = int(line.split()[1])
         real = "unmodified" in rp.get("harness", "")
         exe = build_fake_harness(ctx, bufsz, real)
-        impl = run_lines(ctx, exe, [line], timeout=30)
+        impl = run_lines(ctx, exe, [line], timeout=300)
         model = ctx.driver(["c15"], line + "\n")
         d = rp.get("desc", {})
         s = {"kind": line.split()[0], "line": line, "segments": [untok(x) for x in d.get("segments", [])], "tail": untok(d.get("tail", "-")),
@@ -658,7 +712,7 @@ def replay(ctx, path):
     if rp.get("tool") == "tar2sqfs" and rp.get("input_hex"):
         T = Tools(ctx)
         data = untok(rp["input_hex"])
-        res = T.pack(data, "replay")
+        res = T.pack(data, "replay", timeout=300)
         print("tar2sqfs on the recorded %s input (%s): %s; expected: %s" % (rp["codec"], rp["variant"], res[:2], rp["expected"]))
         exp = ref_decompress_all(T, rp["codec"], data)
         ref = T.pack(exp, "ref") if exp is not None else ("rejects",)
@@ -670,8 +724,8 @@ def replay(ctx, path):
         n = rp["tar_len"] - 512 - 1024
         tar = mk_tar([("f", ctx.rng.randbytes(n))])
         img = T.image(tar, "replay")
-        base = T.unpack(img)
-        res = T.unpack(img, rp["codec"])
+        base = T.unpack(img, timeout=300)
+        res = T.unpack(img, rp["codec"], timeout=300)
         okay = res[0] == "ok" and ref_decompress_all(T, rp["codec"], res[1]) == base[1]
         print("sqfs2tar -c %s on an image whose tar stream has %d bytes: %s, expands to plain output: %s" % (rp["codec"], len(base[1]), res[0], okay))
         return 0 if okay else 1
